@@ -15,6 +15,8 @@ import (
 
 const (
 	pkgBastion     = "github.com/transparency-dev/witness/internal/feeder/bastion"
+	pkgPixel       = "github.com/transparency-dev/witness/internal/feeder/pixelbt"
+	pkgClient      = "github.com/transparency-dev/witness/internal/client"
 	pkgOmni        = "github.com/transparency-dev/witness/omniwitness"
 	pkgHTTP        = "github.com/transparency-dev/witness/internal/http"
 	pkgClientHTTP  = "github.com/transparency-dev/witness/client/http"
@@ -136,6 +138,17 @@ func init() {
 	reg(&checkSpec{ID: "C10", Assumptions: append([]string{"parseBody is replaced by its contract (decided in C11); rate.Limiter.Allow is an arbitrary boolean; the TLS 1.3 + HTTP/2 reverse connection (connectAndServe) is outside the claim", "formats/note.NewVerifier and formats/log.ID are uninterpreted functions of the key text / origin"}, commonAssumptions...), Runs: []runSpec{
 		{Harness: pkgOmni + ".VerifBastion", Quick: p("logs", 2, "maxproof", 1, "store", 0), Thorough: p("logs", 3, "maxproof", 2, "store", 0), Covers: bastCovers},
 		{Harness: pkgOmni + ".VerifBastion", Quick: p("logs", 1, "maxproof", 1, "store", 1), Thorough: p("logs", 2, "maxproof", 2, "store", 1), Covers: bastCovers},
+	}})
+	reg(&checkSpec{ID: "C19", Assumptions: append([]string{"bounded absence of run-time panics and of loops beyond the unwinding bound in the repository's own code and in x/mod tlog.ProveTree; panics inside contract-modelled library calls, socket timeouts, HTTP/2 framing and JSON decoding are outside the claim", "hostile checkpoint sizes: {0, 2^62-1, 2^62, 2^62+1, 2^63-1, 2^63, 2^64-1, any value <= 9}; root hash of arbitrary length"}, commonAssumptions...), Runs: []runSpec{
+		{Harness: pkgSumdb + ".VerifFeedHostile", Quick: p("attempts", 1), Thorough: p("attempts", 2), Unwind: 140, Covers: []string{"hostile/cycle-succeeds", "hostile/cycle-fails", "hostile/proof-built"}},
+		{Harness: pkgPixel + ".VerifFeedHostile", Quick: p("attempts", 1), Thorough: p("attempts", 2), Unwind: 140, Covers: []string{"hostile/cycle-succeeds", "hostile/cycle-fails", "hostile/proof-built"}},
+		{Harness: pkgPixel + ".VerifReadTiles", Domain: sym.DomString, Solver: sym.Z3, Covers: []string{"pixel/readtiles-ok"}},
+		{Harness: pkgClient + ".VerifDataToLeaves", Domain: sym.DomArray, Quick: p("maxlen", 6), Thorough: p("maxlen", 10), Covers: []string{"leaves/two"}},
+		{Harness: pkgBastion + ".VerifServeArbitraryBody", Domain: sym.DomString, Solver: sym.CVC5, Quick: p("k", 2), Thorough: p("k", 3), Unwind: 4, CutOnUnwind: true, Covers: []string{"serve/200", "serve/400", "serve/500"}},
+		{Harness: pkgWitness + ".VerifProofUnmarshalArbitrary", Domain: sym.DomString, Solver: sym.CVC5, Quick: p("maxsplit", 3), Thorough: p("maxsplit", 5), Covers: []string{"proof/arbitrary-two-lines", "proof/arbitrary-refused"}},
+		{Harness: pkgOmni + ".VerifBastion", Quick: p("logs", 1, "maxproof", 1, "store", 0), Thorough: p("logs", 2, "maxproof", 2, "store", 0)},
+		{Harness: pkgFeeder + ".VerifFeedOnce", Quick: p("attempts", 2, "maxproof", 1), Thorough: p("attempts", 2, "maxproof", 2)},
+		{Harness: pkgRest + ".VerifDistribute", Domain: sym.DomString, Solver: sym.CVC5, Quick: p("logs", 2), Thorough: p("logs", 2)},
 	}})
 	reg(&checkSpec{ID: "vc", Runs: vcRuns(), Assumptions: commonAssumptions})
 	reg(&checkSpec{ID: "litmus", Runs: []runSpec{
